@@ -55,7 +55,7 @@ def instances(tier, seed):
     out.append(dict(label='set_linked_disc n=4,2,4 src=0', kind='set_linked_disc', ns=[4, 2, 4], src=0))
     out.append(dict(label='set_linked_mixed', kind='set_linked_mixed'))
     out.append(dict(label='set_other_untouched', kind='set_other'))
-    for name in ('dv', 'dv_single', 'dv_linked'):
+    for name in ('dv', 'dv_single', 'dv_linked', 'dv_or_existence'):
         out.append(dict(label=f'decode_dv {name}', kind='decode_dv', template=name))
     widths = [(16, 30), (32, 30), (64, 30)] if tier == 'quick' else [(16, 60), (32, 120), (64, 300)]
     for bits, to in widths:
@@ -389,6 +389,12 @@ def _concrete_specs(m, terms):
     return out
 
 
+def _same_value(a, b):
+    if is_sym(a) or is_sym(b):
+        return z3.is_true(z3.simplify(z3val(a) == z3val(b)))
+    return a == b
+
+
 def _native_linked_ok(specs, stored, src):
     """linked values: discrete = same index clamped into the own range; continuous = same relative position"""
     sp_s, v_s = specs[src], stored[src]
@@ -416,9 +422,17 @@ def _set_harness(res, kinds, link, src, vdom, extra_claim=None, label='', native
         g = _mk_graph(nodes, link)
         g.set_des_var_value(nodes[src], v)
         first = [g.des_var_value(n) for n in nodes]
+        # a copy is an independent value: setting on the copy leaves the original as it was
+        g2 = g.copy()
+        g2.set_des_var_value(nodes[src], v2)
+        after = [g.des_var_value(n) for n in nodes]
+        untouched = len(after) == len(first) and all(
+            (a is None and b is None) or (a is not None and b is not None and (a is b or _same_value(a, b))) for a, b in zip(first, after))
         g.set_des_var_value(nodes[src], v2)
         second = [g.des_var_value(n) for n in nodes]
-        return first, second
+        on_copy = [g2.des_var_value(n) for n in nodes]
+        copy_ok = all((a is None and b is None) or (a is not None and b is not None and _same_value(a, b)) for a, b in zip(second, on_copy))
+        return first, second, untouched, copy_ok
     ex = explore(run, pre=pre, max_paths=4000, unknown_as_feasible=True, query_timeout_ms=5000)
     absorb(res, ex)
     if not ex.complete:
@@ -442,7 +456,16 @@ def _set_harness(res, kinds, link, src, vdom, extra_claim=None, label='', native
                     _viol(res, 'set_des_var_value', dict(kind='raises', harness=label), dict(link=link, src=src),
                           dict(specs=specs, value=x), f'{type(e).__name__}: {e}', 'value stored')
             continue
-        for which, (stored, vv) in enumerate(zip(p.value, (v, v2))):
+        if not p.value[2] or not p.value[3]:
+            s_ = z3.Solver()
+            s_.add(*pre)
+            s_.add(p.cond())
+            s_.check()
+            m_ = s_.model()
+            _viol(res, 'set_des_var_value', dict(kind='copy_not_independent', harness=label, original_changed=not p.value[2]),
+                  dict(link=link, src=src), dict(specs=_concrete_specs(m_, terms), value=_py(model_int(m_, v)), value_on_copy=_py(model_int(m_, v2))),
+                  dict(original_untouched=p.value[2], copy_has_new_value=p.value[3]), 'setting a value on a copy leaves the original unchanged')
+        for which, (stored, vv) in enumerate(zip(p.value[:2], (v, v2))):
             claims = []
             for i, t in enumerate(terms):
                 in_link = link is not None and i in link and src in link
